@@ -26,8 +26,8 @@ RULE = ("JSON documents shaped like version-1 and version-2 certificates, up to 
 ASSUMPTIONS = [
     "any exception out of from_jsonfile counts as 'reports an error' (the admin tools turn "
     "every exception into an error exit)",
-    "step budget 2*10^6 Python function entries per call, re-run once at 10x before a "
-    "non-termination verdict",
+    "step budgets: 2*10^4 Python function entries for load/save (observed maximum ~200), 2*10^6 for validation "
+    "(pure-Python curve arithmetic); a shard stops at its first non-termination witness",
 ]
 FLOORS = {"quick": {"evaluations": 12000, "loaded": 1500, "load_errors": 5000,
                     "validations": 1500, "roundtrips": 1200, "valid_targets_seen": 300},
@@ -35,6 +35,11 @@ FLOORS = {"quick": {"evaluations": 12000, "loaded": 1500, "load_errors": 5000,
                        "validations": 60000, "roundtrips": 50000, "valid_targets_seen": 10000}}
 
 BUDGET = 2_000_000
+LOAD_BUDGET = 20_000
+
+
+class Stuck(Exception):
+    pass
 
 VALUES = ["<absent>", None, True, 0, 1, 2, 3, 1.5, "", "root", "sgx_root", "device", "ui",
           "quote", "zz", "00", "abcd", [], ["ui"], {}, {"name": "ui"}, "attestation", "signer"]
@@ -191,23 +196,26 @@ def run_doc(acc, steps, doc, labels, version, root, tmpdir, case):
         return
 
     def budgeted(fn, what):
-        for budget in (BUDGET, BUDGET * 10):
-            steps.n = 0
-            steps.budget = budget
-            try:
-                return ("ok", fn())
-            except StepBudgetExceeded:
-                continue
-            except Exception as e:
-                return ("exc", e)
-            finally:
-                steps.budget = None
-        acc.violation("does-not-terminate:%s" % what, {"labels": labels}, case)
-        return ("hang", None)
+        # loading is cheap (a few thousand function entries): a tight budget, so that
+        # a loop whose cost per step grows is still cut off quickly; validation runs
+        # pure-Python elliptic-curve code and gets the large budget
+        budget = LOAD_BUDGET if what in ("load", "reload", "save") else BUDGET
+        steps.n = 0
+        steps.budget = budget
+        try:
+            return ("ok", fn())
+        except StepBudgetExceeded:
+            pass
+        except Exception as e:
+            return ("exc", e)
+        finally:
+            steps.budget = None
+            key = "max_steps_" + ("load" if budget == LOAD_BUDGET else "validate")
+            acc.counters[key] = max(acc.counters.get(key, 0), steps.n)
+        acc.violation("does-not-terminate:%s" % what, {"labels": labels, "budget": budget}, case)
+        raise Stuck()
 
     st, cert = budgeted(lambda: HSMCertificate.from_jsonfile(p), "load")
-    if st == "hang":
-        return
     if st == "exc":
         acc.count("load_errors")
         acc.distinct.add("v%s|%s|load-error:%s" % (version, ",".join(sorted(set(labels))),
@@ -225,11 +233,15 @@ def run_doc(acc, steps, doc, labels, version, root, tmpdir, case):
         return
     st, res = budgeted(lambda: cert.validate_and_get_values(root[ver]), "validate")
     acc.count("validations")
-    if st == "hang":
-        return
     if st == "exc":
-        acc.violation("validation-raised:%s@%s" % (type(res).__name__, kind_of_targets(doc)),
-                      {"exc": repr(res)[:300], "labels": labels}, case)
+        kinds = kind_of_targets(doc)
+        if isinstance(res, NotImplementedError) and "can't provide a value" in str(res):
+            which = "x509_pem" if "X509" in str(res) else "sgx_attestation_key"
+            mech = "validation-raised:NotImplementedError:valid-target-of-valueless-type:" + which
+        else:
+            mech = "validation-raised:%s@%s" % (type(res).__name__, kinds)
+        acc.violation(mech, {"exc": repr(res)[:300], "labels": labels, "target_types": kinds},
+                      case)
         return
     for t in doc["targets"]:
         if t not in res:
@@ -292,7 +304,13 @@ def run_shard(spec, acc):
     try:
         for i in range(spec["n"]):
             cseed = rng.getrandbits(48)
-            run_case(acc, steps, cseed, tmpdir, HSMCertificateRoot, HSMCertificateV2ElementX509)
+            try:
+                run_case(acc, steps, cseed, tmpdir, HSMCertificateRoot,
+                         HSMCertificateV2ElementX509)
+            except Stuck:
+                # non-termination is established; the rest of the shard would only
+                # repeat it slowly
+                break
     finally:
         steps.stop()
         shutil.rmtree(tmpdir, ignore_errors=True)
@@ -312,6 +330,17 @@ def run_case(acc, steps, cseed, tmpdir, HSMCertificateRoot, X509):
                                (d2t, 2, "genuine-all-targets")):
         run_doc(acc, steps, base, [lab], version, root, tmpdir,
                 {"seed": cseed, "which": lab})
+    # a QE report body that carries trailing bytes covered by its signature, and an
+    # attestation key given in compressed form: both load and validate; saving must
+    # not change what was signed
+    d2x = copy.deepcopy(d2)
+    for e in d2x["elements"]:
+        if e["type"] == "sgx_attestation_key":
+            ext = bytes.fromhex(e["message"]) + rng.randbytes(rng.randint(1, 40))
+            e["message"] = ext.hex()
+            e["signature"] = g2.sign_der(m2.cert_keys[-1], ext).hex()
+    run_doc(acc, steps, d2x, ["att-message-trailing-bytes-signed"], 2, root, tmpdir,
+            {"seed": cseed, "which": "trailing"})
     for j in range(16):
         base, version = (d1, 1) if j % 2 == 0 else (rng.choice([d2, d2t]), 2)
         d, labels = mutate(rng, base, version)
@@ -334,6 +363,8 @@ def replay(case, acc):
     steps.start()
     try:
         run_case(acc, steps, case["seed"], tmpdir, HSMCertificateRoot, HSMCertificateV2ElementX509)
+    except Stuck:
+        pass
     finally:
         steps.stop()
         shutil.rmtree(tmpdir, ignore_errors=True)
